@@ -72,6 +72,9 @@ var stems = []string{"na", "name", "nam", "names", "port", "path", "pool", "tags
 func (g *Gen) ident(used map[string]bool) string {
 	for i := 0; i < 50; i++ {
 		s := g.pick(stems)
+		if g.P.Multibyte && g.chance(0.08) {
+			s = g.pick([]string{"größe", "naïve", "ключ"})
+		}
 		if g.chance(0.3) {
 			s += fmt.Sprintf("%d", g.n(4))
 		}
@@ -258,7 +261,7 @@ func (g *Gen) attr(name string, depth int, top bool) *AttrSpec {
 func (g *Gen) body(depth int, top bool) *BodySpec {
 	b := &BodySpec{Desc: g.desc()}
 	used := map[string]bool{}
-	if g.chance(0.08) && !g.P.JSONTwin {
+	if g.chance(0.08) {
 		b.Any = g.attr("any", 1, false)
 		b.Any.Req, b.Any.Opt, b.Any.Comp = false, true, false
 		if g.chance(0.5) {
@@ -303,6 +306,10 @@ func (g *Gen) body(depth int, top bool) *BodySpec {
 }
 
 func (g *Gen) labelValues() []string {
+	if g.P.Odd {
+		// legal label values a hand-written encoder gets wrong
+		return []string{"aws_x", "aws_y", "gcp_z", "na", "name", "a&b", "x<y>"}
+	}
 	return []string{"aws_x", "aws_y", "gcp_z", "na", "name"}
 }
 
